@@ -550,6 +550,7 @@ def _execute(case, res):
         res.sigadd(cname, name, op.get("fault", {}).get("kind") if faulted else None)
         check_nonmutation(name, op)
         check_globals(name)
+        res.state(name, _tkind(op), seg_state(), tuple(sorted((c, tuple(sorted(v))) for c, v in state["iterating"].items() if v)), faulted)
         if faulted:
             # O6: a fault-free retry gives the fault-free result
             clean = {k: v for k, v in op.items() if k != "fault"}
